@@ -28,6 +28,8 @@ var wrapperDelegation = map[string]string{
 }
 
 func checkC05(p *Prog, r *Report) {
+	r.rule("C05.type-lookup: Schema.GetType / HasType find a type by one exact equality test between a type's Name and the requested name and call nothing else (the comparison AddType uses to keep names unique)")
+	checkTypeLookup(p, r, "C05")
 	r.rule(r3RuleText)
 	r.rule("R4a error discipline: every call in the reachable functions whose callee returns an error has that error compared with nil, returned, wrapped or passed on; listed exceptions carry a reason")
 	r.rule("R4b result/error exclusivity: each return of the seven entry points is (value, nil), (nothing, non-nil error) or a callee's pair passed through")
